@@ -243,7 +243,12 @@ fn run_case(seed: u64, idx: usize, bin: &str, rt: &std::sync::Arc<tokio::runtime
                         }
                     }
                     if dead {
-                        viol!(format!("server-died|{}", $what), "request {} killed the server ({:?}: {})", $what, s.code(), s.message().chars().take(160).collect::<String>());
+                        if srv.killed_from_outside() {
+                            // SIGKILL / SIGTERM are never raised by the server itself
+                            out.inconclusive(format!("case {}: the server was ended by {:?} from outside during {}", idx, srv.exit_status(), $what));
+                            return;
+                        }
+                        viol!(format!("server-died|{}", $what), "request {} killed the server ({:?}: {}; process ended with {:?})", $what, s.code(), s.message().chars().take(160).collect::<String>(), srv.exit_status());
                     }
                     // the connection broke instead of carrying a status: the request was not answered
                     // (the server is alive: a fresh connection is used from here on)
@@ -729,8 +734,8 @@ fn run_case(seed: u64, idx: usize, bin: &str, rt: &std::sync::Arc<tokio::runtime
                 }
                 Err(e) => {
                     std::thread::sleep(std::time::Duration::from_millis(300));
-                    if phase == "live" && !srv.alive() {
-                        viol!("server-died|during-history", "the server process died during the request history (census query: {})", e);
+                    if phase == "live" && !srv.alive() && !srv.killed_from_outside() {
+                        viol!("server-died|during-history", "the server process died during the request history (census query: {}; process ended with {:?})", e, srv.exit_status());
                     }
                     let alive = srv.alive();
                     let fresh = srv.tenant_client(who).ok().map(|mut c| c.health().is_ok()).unwrap_or(false);
